@@ -191,6 +191,7 @@ def update(tier: str, prop: str) -> list[dict]:
         dict(algo="PPO", n=4, T=4, E=2, nb=4),     # N=16, B=4: exact partition
         dict(algo="PPO", n=2, T=8, E=4, nb=3),     # N=16, B=5
         dict(algo="PPO", n=1, T=5, E=1, nb=1),     # single batch
+        dict(algo="PPO", n=2, T=5, E=2, nb=4),     # N=10, B=floor(10/4)=2: FIVE minibatches per epoch although num_batches=4
         dict(algo="A2C", n=3, T=4),
         dict(algo="REINFORCE", n=2, T=6),
     ]
